@@ -128,14 +128,16 @@ def TailSchema.valid (s : TailSchema) (vs : List Val) : Bool := validFixed s.fix
 /-- mirrors msgs.rs `impl Writeable/LengthReadable for UnsignedChannelAnnouncement`: features (ChannelFeatures: u16 length +
     flag bytes), chain_hash, short_channel_id, node_id_1, node_id_2, bitcoin_key_1, bitcoin_key_2 (NodeId ×4), excess_data -/
 def unsignedChannelAnnouncementFields : List FieldTy := [.bytes16, h32, u64, nodeId, nodeId, nodeId, nodeId]
+def unsignedChannelAnnouncementNames : List String :=
+  ["features", "chain_hash", "short_channel_id", "node_id_1", "node_id_2", "bitcoin_key_1", "bitcoin_key_2"]
 def tail_UnsignedChannelAnnouncement : TailSchema :=
-  ⟨"UnsignedChannelAnnouncement", ["features", "chain_hash", "short_channel_id", "node_id_1", "node_id_2", "bitcoin_key_1", "bitcoin_key_2"],
-   unsignedChannelAnnouncementFields, none⟩
+  ⟨"UnsignedChannelAnnouncement", unsignedChannelAnnouncementNames, unsignedChannelAnnouncementFields, none⟩
 
 /-- mirrors msgs.rs `impl Writeable/LengthReadable for ChannelAnnouncement`: node_signature_1, node_signature_2,
     bitcoin_signature_1, bitcoin_signature_2, contents (the unsigned announcement, to the end of the message) -/
 def tail_ChannelAnnouncement : TailSchema :=
-  ⟨"ChannelAnnouncement", ["node_signature_1", "node_signature_2", "bitcoin_signature_1", "bitcoin_signature_2", "contents.*"],
+  ⟨"ChannelAnnouncement", ["node_signature_1", "node_signature_2", "bitcoin_signature_1", "bitcoin_signature_2"] ++
+     unsignedChannelAnnouncementNames.map ("contents." ++ ·),
    [sig, sig, sig, sig] ++ unsignedChannelAnnouncementFields, none⟩
 
 /-- mirrors msgs.rs `impl Writeable/LengthReadable for UnsignedChannelUpdate`: chain_hash, short_channel_id, timestamp (u32),
@@ -143,21 +145,23 @@ def tail_ChannelAnnouncement : TailSchema :=
     cltv_expiry_delta (u16), htlc_minimum_msat, fee_base_msat (u32), fee_proportional_millionths (u32), htlc_maximum_msat,
     excess_data -/
 def unsignedChannelUpdateFields : List FieldTy := [h32, u64, u32, u8, u8, u16, u64, u32, u32, u64]
+def unsignedChannelUpdateNames : List String :=
+  ["chain_hash", "short_channel_id", "timestamp", "message_flags", "channel_flags", "cltv_expiry_delta",
+   "htlc_minimum_msat", "fee_base_msat", "fee_proportional_millionths", "htlc_maximum_msat"]
 def tail_UnsignedChannelUpdate : TailSchema :=
-  ⟨"UnsignedChannelUpdate", ["chain_hash", "short_channel_id", "timestamp", "message_flags", "channel_flags", "cltv_expiry_delta",
-    "htlc_minimum_msat", "fee_base_msat", "fee_proportional_millionths", "htlc_maximum_msat"], unsignedChannelUpdateFields, some 3⟩
+  ⟨"UnsignedChannelUpdate", unsignedChannelUpdateNames, unsignedChannelUpdateFields, some 3⟩
 
 /-- mirrors msgs.rs `impl Writeable/LengthReadable for ChannelUpdate`: signature, contents -/
 def tail_ChannelUpdate : TailSchema :=
-  ⟨"ChannelUpdate", ["signature", "contents.*"], sig :: unsignedChannelUpdateFields, some 4⟩
+  ⟨"ChannelUpdate", "signature" :: unsignedChannelUpdateNames.map ("contents." ++ ·), sig :: unsignedChannelUpdateFields, some 4⟩
 
 def tailSchemas : List TailSchema :=
   [tail_UnsignedChannelAnnouncement, tail_ChannelAnnouncement, tail_UnsignedChannelUpdate, tail_ChannelUpdate]
 
 /-- the layout of all hand-written schemas in the format of `Generated/MsgSchemas.lean::handPinned` -/
 def handLayout : List HandLayout :=
-  handSchemas.map (fun s => ⟨s.name, s.fixed, s.tlvs.map (fun f => (f.typ, f.ty)), false, none⟩) ++
-  tailSchemas.map (fun s => ⟨s.name, s.fixed, [], true, s.lowBitField⟩)
+  handSchemas.map (fun s => ⟨s.name, s.fixedNames, s.fixed, s.tlvs.map (fun f => (f.typ, f.ty)), false, none⟩) ++
+  tailSchemas.map (fun s => ⟨s.name, s.fixedNames, s.fixed, [], true, s.lowBitField⟩)
 
 /-! ## ErrorMessage / WarningMessage / Ping / Pong (irregular hand-written codecs: own small decoders)
 
